@@ -119,7 +119,7 @@ func runC12(c *core.Ctx) {
 		// newTree's invalid descriptor carries minLength - alreadyConsumed in both places
 		nt := c.Prog.Func(pkg, "newTree")
 		ns := c.Prog.Src(nt.Decl.Body)
-		o.Require(strings.Contains(ns, "desc:[]byte{descInvalid,byte(minLength-alreadyConsumed)}") && strings.Contains(ns, "consume:minLength-alreadyConsumed") && strings.Contains(ns, "alreadyConsumed:=depth+1"), "the invalid node must record minLength-(depth+1) as the number of further bytes to consume")
+		o.Shape(strings.Contains(ns, "desc:[]byte{descInvalid,byte(minLength-alreadyConsumed)}") && strings.Contains(ns, "consume:minLength-alreadyConsumed") && strings.Contains(ns, "alreadyConsumed:=depth+1"), "the invalid node must record minLength-(depth+1) as the number of further bytes to consume")
 		// decoder chain
 		for _, fname := range []string{"(*Codec).Decode", "(*Codec).AppendCode"} {
 			fn := c.Prog.Func(pkg, fname)
@@ -232,7 +232,7 @@ func runC12(c *core.Ctx) {
 		// the empty-input return is only reachable at the top of the loop: consumed ≥ 1 afterwards
 		nt := c.Prog.Func(pkg, "newTree")
 		ns := c.Prog.Src(nt.Decl.Body)
-		o.Require(strings.Contains(ns, "breaks[0]=true") && strings.Contains(ns, "breaks[256]=true"), "newTree must insert the break points 0 and 256 so that every node list ends with bound 0xFF (the decoder's scan relies on it)")
+		o.Shape(strings.Contains(ns, "breaks[0]=true") && strings.Contains(ns, "breaks[256]=true"), "newTree must insert the break points 0 and 256 so that every node list ends with bound 0xFF (the decoder's scan relies on it)")
 	})
 	c.Check("C12-R4", pkg+".newTree/prefix-conflict", "a range set in which one code is a prefix of another is rejected", func(o *core.Ob) {
 		fn := c.Prog.Func(pkg, "newTree")
